@@ -886,7 +886,7 @@ func runScenario(sc *scenario) (rec vtr.Rec) {
 type killPlan struct {
 	Method  string `json:"method"`
 	Ordinal int    `json:"ordinal"` // 1-based, counted per method since the plan was armed
-	Phase   string `json:"phase"`   // before | after | afterlost | mid | drop (reply lost, machine stays up)
+	Phase   string `json:"phase"`   // before | after | afterlost | afterdelay (reply delivered once the loss is known) | mid | drop (reply lost, machine stays up)
 	Bytes   int    `json:"bytes"`   // mid: reply bytes delivered before the kill
 	fired   bool
 }
@@ -1064,6 +1064,11 @@ func (k *killer) RoundTrip(req *http.Request) (*http.Response, error) {
 			return nil, fmt.Errorf("verif: reply from %s lost", addr)
 		}
 		k.kill(addr, pl)
+		if pl.Phase == "afterdelay" && rerr == nil {
+			// the reply reaches the caller only after the loss of the machine has been noticed
+			// (keepalive timeout 2 s): "between a task's completion and the driver learning of it"
+			time.Sleep(3500 * time.Millisecond)
+		}
 		if pl.Phase == "afterlost" || rerr != nil {
 			return nil, fmt.Errorf("verif: connection to %s lost", addr)
 		}
